@@ -29,7 +29,70 @@ LOCAL = "\nVF_LOC: t=%s | f=VF_REST ;\n"
 
 def plan(tier):
     n = 150 if tier == 'quick' else 3500
-    return [dict(n=n) for _ in range(16)]
+    return [dict(kind='random', n=n) for _ in range(12)] + [dict(kind='templates', index=i, nshards=4, maxlen=4 if tier == 'quick' else 5) for i in range(4)]
+
+
+def templates():
+    """a systematic family: an inner choice with a cut in its i-th alternative, wrapped in a group / optional / closure /
+    nothing, followed by a tail token, as the first or second option of an outer choice whose other option shares the prefix"""
+    A, B, C, D = ('tok', 'a'), ('tok', 'b'), ('tok', 'c'), ('tok', 'd')
+    cutalt = ('seq', (A, ('cut',), B))
+    inners = {
+        'only': [cutalt],
+        'first': [cutalt, ('tok', 'x')],
+        'last': [('tok', 'x'), cutalt],
+        'middle': [('tok', 'x'), cutalt, ('seq', (A, D))],
+    }
+    for iname, alts in inners.items():
+        inner = alts[0] if len(alts) == 1 else ('alt', tuple(alts))
+        for wname, wrap in (('grp', lambda e: ('grp', e)), ('opt', lambda e: ('opt', e)), ('star', lambda e: ('star', e)),
+                            ('plus', lambda e: ('plus', e)), ('named', lambda e: ('named', 'n', ('grp', e))), ('rule', None)):
+            for tail in (C, None):
+                for order in ('cut-first', 'cut-second'):
+                    rules = []
+                    if wrap is None:
+                        first = ('call', 'r1')
+                        rules.append(('r1', inner))
+                    else:
+                        first = wrap(inner)
+                    opt1 = ('seq', (first, tail)) if tail else first
+                    opt2 = ('seq', (A, B, D))
+                    opt3 = ('seq', (A, D))
+                    body = ('alt', (opt1, opt2, opt3)) if order == 'cut-first' else ('alt', (opt3, opt1, opt2))
+                    yield f'{iname}/{wname}/{"tail" if tail else "notail"}/{order}', [('start', body)] + rules
+
+
+def run_shard(sh, kind, **kw):
+    if kind == 'templates':
+        return run_templates(sh, **kw)
+    return run_random(sh, **kw)
+
+
+def run_templates(sh, index, nshards, maxlen):
+    import itertools
+    complete = True
+    for k, (name, rules) in enumerate(templates()):
+        if k % nshards != index:
+            continue
+        reset_tatsu_state()
+        start = 'start'
+        rules0 = [(n, gen.strip_cuts(x)) for n, x in rules]
+        g = tu.compile_grammar(tu.wrapped_text(grammar_text(rules), start) + LOCAL % start)
+        g0 = tu.compile_grammar(tu.wrapped_text(grammar_text(rules0), start))
+        gtext = grammar_text(rules)
+        for L in range(0, maxlen + 1):
+            for t in itertools.product('abcd', repeat=L):
+                if sh.out_of_budget():
+                    complete = False
+                    break
+                text = ' '.join(t)
+                d, info = check(rules, start, text, (g, g0))
+                cf = info.get('cutfails', [])
+                sh.case((gtext, text), bool(cf), ['template:' + name.split('/')[1], 'template'] + [f'cutfail:{c}' for c in cf],
+                        sample=dict(grammar=gtext, input=text, cutfails=cf))
+                if d is not None:
+                    sh.fail(d['bucket'], dict(rules=rules, start=start, input=text), d)
+    sh.exhaustive[f'cut-scope template family x all strings over {{a,b,c,d}} up to {maxlen} lexemes'] = complete
 
 
 def corrupt_after_cut(rnd, lexs, marks):
@@ -94,7 +157,7 @@ def check(rules, start, text, models=None):
     return None, info
 
 
-def run_shard(sh, n):
+def run_random(sh, n):
     gcfg = gen.GenCfg(cut=False)
 
     def body(rnd):
